@@ -26,7 +26,10 @@ def scn_sync(rnd, sid):
     msgs = max(2, min(40, 400 // n))
     return {"id": sid, "mode": rnd.choice(["logger", "logger", "bare"]), "producers": n, "msgs": rnd.randint(2, msgs),
             "jitter": rnd.choice([0, 10, 30, 60]), "seed": rnd.randrange(1 << 30), "sinkDelayUs": rnd.choice([0, 0, 50, 300]),
-            "pre": [], "script": [], "script2": [], "heapctx": rnd.random() < 0.5, "kind": "sync"}
+            "pre": [], "script": [], "script2": [], "heapctx": rnd.random() < 0.5, "kind": "sync",
+            # some messages are fatal ones (handed to the installed handler the way Qt does it, without Qt's abort()):
+            # the logger then flushes its sinks inside the same critical section
+            "fatalEvery": rnd.choice([0, 2, 3, 5])}
 
 
 def scn_async(rnd, sid):
@@ -36,7 +39,7 @@ def scn_async(rnd, sid):
          "msgs": rnd.randint(2, max(2, min(25, 200 // n))),
          "jitter": rnd.choice([0, 10, 30, 60]), "seed": rnd.randrange(1 << 30), "sinkDelayUs": rnd.choice([0, 0, 100, 500]),
          "pre": rnd.choice([["move"], ["move", "install"]]), "script": [], "script2": [], "heapctx": rnd.random() < 0.7,
-         "gate": gated, "kind": "async"}
+         "gate": gated, "kind": "async", "fatalEvery": rnd.choice([0, 0, 3, 4])}
     if gated:
         s["script"] = ["waitProducers", "openGate"]
     return s
@@ -134,7 +137,8 @@ def translate(scn, raw, recheck=True):
         kind = e["e"]
         if kind == "Reset":
             evs.append({"e": "Reset", "scn": scn["id"],
-                        "conf": {"useLogger": scn["mode"] != "bare", "recheck": recheck, "safeEnv": True, "locks": True, "eager": True, "rt": True, "disc": True},
+                        "conf": {"useLogger": scn["mode"] != "bare", "recheck": recheck, "safeEnv": True, "locks": True, "eager": True, "rt": True, "disc": True,
+                                 "fatalEvery": scn.get("fatalEvery", 0)},
                         "todo": dict({"p%d" % p: [["p%d" % p, i] for i in range(1, k + 1)] for p in range(1, n + 1)},
                                      **({"pw": [["pw", i] for i in range(1, relog + 1)]} if relog else {})),
                         "script": script, "app": "alive"})
@@ -156,6 +160,9 @@ def translate(scn, raw, recheck=True):
             evs.append({"e": "Deliver", "t": e["t"], "m": e["m"], "n": e["n"], "hasn": e["hasn"], "f": e["f"], "time": e["time"]})
         elif kind in ("Enter", "Exit"):
             evs.append({"e": kind, "t": e["t"], "m": e["m"]})
+        elif kind == "Flush":
+            info["fatal_flushes"] = info.get("fatal_flushes", 0) + (1 if e["ph"] == "begin" else 0)
+            evs.append({"e": "Flush", "t": e["t"], "ph": e["ph"]})
         elif kind == "CallBegin":
             evs.append({"e": "CallBegin", "t": e["t"], "m": e["m"], "f": e["f"], "ms": e["ms"]})
         elif kind == "CallEnd":
@@ -322,7 +329,7 @@ def translate_life(sid, path, n, k, late, raw, rc):
         kind = e["e"]
         if kind == "Reset":
             evs.append({"e": "Reset", "scn": sid,
-                        "conf": {"useLogger": True, "recheck": True, "safeEnv": True, "locks": True, "eager": True, "rt": True, "disc": True},
+                        "conf": {"useLogger": True, "recheck": True, "safeEnv": True, "locks": True, "eager": True, "rt": True, "disc": True, "fatalEvery": 0},
                         "todo": todo, "script": script, "app": "none"})
         elif kind == "App":
             left -= 1
@@ -528,7 +535,7 @@ def run(pid, tier, seed):
         "exhaustive": False,
         "tlc_exhaustive_configs": MC[pid][tier], "tlc_depth": depth, "tlc_action_coverage": cov, "tlc_witnesses": wit,
         "trace_events": sum(len(e) for (_, e, _) in executed), "verification_points_validated": tot("points"),
-        "async_deliveries": tot("async_deliveries"), "sync_deliveries": tot("sync_deliveries"), "hand_offs": tot("posts"),
+        "async_deliveries": tot("async_deliveries"), "sync_deliveries": tot("sync_deliveries"), "hand_offs": tot("posts"), "fatal_flushes_inside_the_lock": sum(i.get("fatal_flushes", 0) for (_, _, i) in executed),
         "stop_waits_with_backlog": tot("resets_with_backlog"), "scenario_kinds": kinds,
         "tlc_behaviours_forced_on_the_real_threads": len(behaviours),
         "schedule_gates_honoured": sum(info.get("gates_passed", 0) for (_, _, info) in executed),
